@@ -43,6 +43,13 @@ type segmentState struct {
 	r types.SegmentReader
 }
 
+// isClosed reports whether s is the empty state Close installs in place of the
+// real one. It has no segments or tail so none of the other methods are safe to
+// call on it.
+func (s *state) isClosed() bool {
+	return s.segments == nil
+}
+
 // Commit converts the in-memory state into a PersistentState.
 func (s *state) Persistent() types.PersistentState {
 	segs := make([]types.SegmentInfo, 0, s.segments.Len())
